@@ -277,6 +277,19 @@ def numberize(rng, case, p=0.25):
                     case.note.setdefault("numberized", {})[n.name] = num
                     case.feats.add("number")
             elif isinstance(n, Ell):
+                # "2..." : a number under an ellipsis is a fresh axis of that length in every repetition
+                if (len(n.items) == 1 and isinstance(n.items[0], Ax) and not n.anon and counts.get(n.items[0].name) == 1 and n.items[0].name in case.var_sizes
+                        and len(set(case.var_sizes[n.items[0].name])) <= 1 and case.reps.get(n.group, 0) == len(case.var_sizes[n.items[0].name]) and rng.random() < case.note.get("num_ell_p", 0.3)):
+                    nm = n.items[0].name
+                    vs = case.var_sizes[nm]
+                    val = vs[0] if vs else 2
+                    if not (case.family == "elementwise" and case.outputs is None and val == 1):
+                        num = Num(val)
+                        n.items[0] = num
+                        case.note.setdefault("numberized", {})[nm] = num
+                        case.feats.add("number")
+                        case.feats.add("number-under-ellipsis")
+                        continue
                 rec(n.items, True)
             elif isinstance(n, (Flat, Cat, Br)):
                 rec(n.items, top_ell)
